@@ -96,9 +96,15 @@ def gen_inputs(rng):
             fname, np = r.choice(g.funs)
             inputs.append([f"{fname}({', '.join(str(r.randint(0, 9)) for _ in range(np))})"])
         k = r.randint(0, 3)
-        final = r.choice([f"let izf = 0 while True {{ izf += 1 if izf > {k} {{ break }} }}",
-                          f"for qzf in [1, 2, 3] {{ if qzf > {k} {{ break }} }}",
-                          f"let izf = 0 while izf < {k} {{ izf += 1 }}"])
+        finals = [f"let izf = 0 while True {{ izf += 1 if izf > {k} {{ break }} }}",
+                  f"for qzf in [1, 2, 3] {{ if qzf > {k} {{ break }} }}",
+                  f"let izf = 0 while izf < {k} {{ izf += 1 }}",
+                  f"if {k} > 1 {{ println(\"zf\") }}"]
+        if g.assignable(top):
+            # other statements whose value is Unit
+            v = r.choice(g.assignable(top))
+            finals += [f"{v} += {k}", f"{v} -= {k}", f"{v} = {k}", f"let zfl = {v}"]
+        final = r.choice(finals)
     elif r.chance(0.15):
         final = "{ " + final + " }"  # a toplevel block evaluates to its last expression
     else:
